@@ -78,6 +78,9 @@ type jsnCase struct {
 	HasExtra bool   // prefix / callback argument given
 	Extra    string // hex
 	V        jv
+	// PreCT: a Content-Type that is already in the response header map when the helper is called (set by an
+	// earlier middleware, or left over from a negotiation step); the helper labels its own output all the same
+	PreCT string `json:",omitempty"`
 }
 
 // string material: ASCII, HTML-sensitive, BMP, line separators, astral, and every flavour of invalid UTF-8
@@ -164,6 +167,10 @@ func genJsn(r *hx.Rand) *jsnCase {
 			pool = []string{"cb", "", "my.func", "callback", "a\r\nb", "$j_1"}
 		}
 		k.Extra = hex.EncodeToString([]byte(hx.Pick(r, pool)))
+	}
+	if r.Chance(1, 6) {
+		k.PreCT = hx.Pick(r, []string{"application/json; charset=iso-8859-1", "application/problem+json", "application/json", "text/html",
+			"application/vnd.api+json; ext=x", "application/x-ndjson", "APPLICATION/JSON;charset=latin1"})
 	}
 	return k
 }
@@ -256,6 +263,9 @@ func emitJsn(id string, k *jsnCase, st *hx.Stats) string {
 				panicked = true
 			}
 		}()
+		if k.PreCT != "" && encErr == nil {
+			c.Header("Content-Type", k.PreCT)
+		}
 		rerr = callJSON(c, k, v, extra)
 	})
 	body := rec.Body.Bytes()
